@@ -552,3 +552,23 @@ func verifFDEndsWith(f *os.File, data string) bool {
 func verifBig(s string) string {
 	return s + "|" + strings.Repeat("x", 1<<20) + "|" + s + "\n"
 }
+
+// verifNow: with clock instrumentation (the driver rewrites time.Now() in the package and the harness for the replay)
+// the clock returns the solver's successive readings; once they are used up, or without a recorded reading, real time
+func verifNow() time.Time {
+	verifMu.Lock()
+	defer verifMu.Unlock()
+	p := verifPos
+	for p < len(verifDoc.Vector) && len(verifDoc.Vector[p].Kind) > 4 && verifDoc.Vector[p].Kind[:4] == "ext-" {
+		p++
+	}
+	if p < len(verifDoc.Vector) && verifDoc.Vector[p].Kind == "now" {
+		n, err := strconv.ParseInt(verifDoc.Vector[p].Val, 10, 64)
+		if err == nil {
+			verifPos = p + 1
+			return time.Unix(0, n)
+		}
+	}
+	return time.Now()
+}
+func verifSince(t time.Time) time.Duration { return verifNow().Sub(t) }
